@@ -88,6 +88,14 @@ class SignVerify(Family):
         text = MESSAGES[mi]
         key = CBitcoinSecret.from_secret_bytes(K.sbytes(sec), comp)
         msg = BitcoinMessage(text)
+        # the message object is looked at the way callers do before it is signed / verified (a third of the cases each):
+        # used as a dictionary key and compared; serialised; not at all
+        look = (mi + ni + si) % 3
+        if look == 1:
+            if hash(msg) != hash(BitcoinMessage(text)) or msg != BitcoinMessage(text) or len({msg: 1, BitcoinMessage(text): 2}) != 1:
+                raise Viol('equal message objects hash / compare differently', None, None)
+        elif look == 2:
+            msg.serialize()         # (printing is not part of the property: __str__ is ASCII-only by design)
         want_digest = msg_digest(text)
         if msg.GetHash() != want_digest:
             raise Viol('message digest for a %d-byte message' % len(text.encode()), want_digest.hex(), msg.GetHash().hex())
